@@ -1,6 +1,7 @@
 package rules
 
 import (
+	"go/constant"
 	"go/token"
 	"regexp/syntax"
 	"sort"
@@ -87,66 +88,135 @@ func rule171(r *core.Run) {
 }
 
 // lengthAccepted evaluates the guard structure of fn over a concrete length:
-// branches on comparisons of len(name) with constants are decided, all other
-// branches may go either way; reports whether a nil-error return is reachable.
+// branches on comparisons of len(name) with constants are decided (also when
+// the condition is a value merged from a short-circuit expression: the walk
+// remembers the edge it came by and resolves phis of the block accordingly), all
+// other branches may go either way; reports whether a nil-error return is reachable.
 func lengthAccepted(r *core.Run, fn *ssa.Function, name ssa.Value, L int64) bool {
-	seen := map[*ssa.BasicBlock]bool{}
-	var walk func(b *ssa.BasicBlock) bool
-	walk = func(b *ssa.BasicBlock) bool {
-		if seen[b] {
+	type state struct{ b, pred *ssa.BasicBlock }
+	seen := map[state]bool{}
+	// eval: 1 true, -1 false, 0 unknown
+	var eval func(v ssa.Value, b, pred *ssa.BasicBlock, d int) int
+	eval = func(v ssa.Value, b, pred *ssa.BasicBlock, d int) int {
+		if d > 6 {
+			return 0
+		}
+		switch x := v.(type) {
+		case *ssa.Const:
+			if x.Value != nil && x.Value.Kind() == constant.Bool {
+				if constant.BoolVal(x.Value) {
+					return 1
+				}
+				return -1
+			}
+		case *ssa.UnOp:
+			if x.Op == token.NOT {
+				return -eval(x.X, b, pred, d+1)
+			}
+		case *ssa.Phi:
+			if x.Block() == b && pred != nil {
+				for i, p := range b.Preds {
+					if p == pred && i < len(x.Edges) {
+						// the incoming value was computed in (or before) pred
+						return eval(x.Edges[i], pred, nil, d+1)
+					}
+				}
+			}
+		case *ssa.BinOp:
+			cd := core.CondOf(x)
+			if isLenCall(cd.X) && cd.X.(*ssa.Call).Call.Args[0] == name {
+				if k, ok := core.ConstInt(cd.Y); ok {
+					var t bool
+					switch cd.Op {
+					case token.LSS:
+						t = L < k
+					case token.LEQ:
+						t = L <= k
+					case token.GTR:
+						t = L > k
+					case token.GEQ:
+						t = L >= k
+					case token.EQL:
+						t = L == k
+					case token.NEQ:
+						t = L != k
+					default:
+						return 0
+					}
+					if t {
+						return 1
+					}
+					return -1
+				}
+			}
+			if isLenCall(cd.Y) && cd.Y.(*ssa.Call).Call.Args[0] == name {
+				if k, ok := core.ConstInt(cd.X); ok {
+					var t bool
+					switch cd.Op {
+					case token.LSS:
+						t = k < L
+					case token.LEQ:
+						t = k <= L
+					case token.GTR:
+						t = k > L
+					case token.GEQ:
+						t = k >= L
+					case token.EQL:
+						t = L == k
+					case token.NEQ:
+						t = L != k
+					default:
+						return 0
+					}
+					if t {
+						return 1
+					}
+					return -1
+				}
+			}
+		}
+		return 0
+	}
+	var walk func(b, pred *ssa.BasicBlock) bool
+	walk = func(b, pred *ssa.BasicBlock) bool {
+		st := state{b, nil}
+		hasPhi := false
+		for _, in := range b.Instrs {
+			if _, ok := in.(*ssa.Phi); ok {
+				hasPhi = true
+			}
+		}
+		if hasPhi {
+			st.pred = pred
+		}
+		if seen[st] {
 			return false
 		}
-		seen[b] = true
+		seen[st] = true
 		if len(b.Instrs) == 0 {
 			return false
 		}
 		switch t := b.Instrs[len(b.Instrs)-1].(type) {
 		case *ssa.Return:
-			if len(t.Results) == 1 && definitelyNil(r, t.Results[0]) {
-				return true
-			}
-			return false
+			return len(t.Results) == 1 && definitelyNil(r, t.Results[0])
 		case *ssa.If:
-			cd := core.CondOf(t.Cond)
-			if isLenCall(cd.X) && cd.X.(*ssa.Call).Call.Args[0] == name {
-				if k, ok := core.ConstInt(cd.Y); ok {
-					var v bool
-					switch cd.Op {
-					case token.LSS:
-						v = L < k
-					case token.LEQ:
-						v = L <= k
-					case token.GTR:
-						v = L > k
-					case token.GEQ:
-						v = L >= k
-					case token.EQL:
-						v = L == k
-					case token.NEQ:
-						v = L != k
-					default:
-						return walk(b.Succs[0]) || walk(b.Succs[1])
-					}
-					if cd.Neg {
-						v = !v
-					}
-					if v {
-						return walk(b.Succs[0])
-					}
-					return walk(b.Succs[1])
-				}
+			switch eval(t.Cond, b, pred, 0) {
+			case 1:
+				return walk(b.Succs[0], b)
+			case -1:
+				return walk(b.Succs[1], b)
 			}
-			return walk(b.Succs[0]) || walk(b.Succs[1])
+			return walk(b.Succs[0], b) || walk(b.Succs[1], b)
 		default:
 			for _, s := range b.Succs {
-				if walk(s) {
+				if walk(s, b) {
 					return true
 				}
 			}
 		}
 		return false
 	}
-	return walk(fn.Blocks[0])
+	return walk(fn.Blocks[0], nil)
 }
 
 func rule172(r *core.Run, ctx *oblig.Ctx) map[int]bool {
@@ -193,7 +263,7 @@ func rule172(r *core.Run, ctx *oblig.Ctx) map[int]bool {
 				whole = c
 			} else {
 				as := r.P.SliceOf(c.Call.Args[1], core.SliceOpts{Depth: -1, NoIndex: true})
-				if as.Has("call:strings.Split") && as.HasValue(name) && as.Has("const:.") {
+				if (as.Has("call:strings.Split") || as.Has("call:strings.Cut") || as.Has("call:strings.SplitN") || as.Has("call:strings.FieldsFunc")) && as.HasValue(name) && (as.Has("const:.") || as.Has("const:46")) {
 					label = c
 				}
 			}
@@ -253,7 +323,7 @@ func rule172(r *core.Run, ctx *oblig.Ctx) map[int]bool {
 	r.Check(rejectsOn(whole, true), "R17.2", key(fname(r, fn), "whole-name pattern"), r.P.Pos(fn.Pos()), "rejects when the pattern does not match the whole name", "the whole name is no longer tested against bucketNamePattern with a rejecting arm")
 	r.Check(rejectsOn(label, true), "R17.2", key(fname(r, fn), "per-label pattern"), r.P.Pos(fn.Pos()), "rejects when a '.'-separated label does not match", "the labels of strings.Split(name, \".\") are no longer each tested against bucketNamePattern with a rejecting arm")
 	r.Check(rejectsOn(ipTest, false), "R17.2", key(fname(r, fn), "IP address reject"), r.P.Pos(fn.Pos()), "rejects names that parse as an IP address", "names formatted as an IP address are no longer rejected")
-	// every label is tested: the label loop cannot skip an element
+	// every label is tested: the label loop cannot skip an element, and acceptance needs the last label tested
 	if label != nil {
 		var head *ssa.If
 		for _, g := range core.GuardsOf(label) {
@@ -262,19 +332,66 @@ func rule172(r *core.Run, ctx *oblig.Ctx) map[int]bool {
 				head = g.If
 			}
 		}
-		okAll := head != nil
-		if head != nil {
+		isLabel := func(in ssa.Instruction) bool { return in == ssa.Instruction(label) }
+		switch {
+		case head != nil:
+			// range over the split result
 			body := head.Block().Succs[0]
-			skip, _ := core.SilentSkip(body, head.Block(), func(in ssa.Instruction) bool { return in == ssa.Instruction(label) }, func(*ssa.If, bool) bool { return false })
-			okAll = !skip
+			skip, _ := core.SilentSkip(body, head.Block(), isLabel, func(*ssa.If, bool) bool { return false })
+			okAll := !skip
 			// and acceptance is only reachable after the loop finished
 			for _, ret := range core.Returns(fn) {
 				if definitelyNil(r, ret.Results[0]) && !core.GuardedBy(ret, head, false) {
 					okAll = false
 				}
 			}
+			r.Check(okAll, "R17.2", key(fname(r, fn), "every label tested"), r.P.Pos(fn.Pos()), "acceptance only after all labels matched", "the validator can accept without having tested every label")
+		default:
+			// an explicit loop that cuts one label off per iteration (strings.Cut / Index):
+			// no way round the loop without the test, and acceptance only after the test of
+			// the current label, on the "no further separator" outcome of that cut
+			var cut *ssa.Call
+			as := r.P.SliceOf(label.Call.Args[1], core.SliceOpts{Depth: -1, NoIndex: true})
+			for c := range as.Calls {
+				if cn := r.P.CalleeName(c); cn == "strings.Cut" || cn == "strings.SplitN" || cn == "strings.IndexByte" || cn == "strings.Index" {
+					cut, _ = c.(*ssa.Call)
+				}
+			}
+			inLoop := core.Reaches(label, label)
+			if cut == nil || !inLoop {
+				r.Unresolved("R17.2: the way ValidateBucketName walks over the labels is not one of the recognised idioms (range over strings.Split; loop over strings.Cut)")
+				break
+			}
+			okAll := true
+			why := ""
+			// (a) from one cut to the next without the test
+			if core.ReachesAvoiding(cut, cut, isLabel) {
+				okAll, why = false, "an iteration can go on to the next label without testing the current one"
+			}
+			// (b) acceptance without the test after the last cut, or not on the "no more separators" outcome
+			for _, ret := range core.Returns(fn) {
+				if !definitelyNil(r, ret.Results[0]) {
+					continue
+				}
+				if core.ReachableFromEntryAvoiding(ret, isLabel) {
+					okAll, why = false, "acceptance is reachable without any label test"
+				}
+				if core.ReachesAvoiding(cut, ret, isLabel) {
+					okAll, why = false, "acceptance is reachable after cutting off a label that was not tested"
+				}
+				more := false
+				for _, g := range core.GuardsOf(ret) {
+					gs := r.P.SliceOf(g.If.Cond, core.SliceOpts{Depth: -1})
+					if gs.HasValue(cut) {
+						more = true
+					}
+				}
+				if !more {
+					okAll, why = false, "acceptance does not depend on the cut having found no further separator"
+				}
+			}
+			r.Check(okAll, "R17.2", key(fname(r, fn), "every label tested"), r.P.Pos(fn.Pos()), "acceptance only after all labels matched", "the validator can accept without having tested every label ("+why+")")
 		}
-		r.Check(okAll, "R17.2", key(fname(r, fn), "every label tested"), r.P.Pos(fn.Pos()), "acceptance only after all labels matched", "the validator can accept without having tested every label")
 	}
 	return lens
 }
